@@ -171,3 +171,37 @@ def run_format_project(ctx, eng, k, stdin):
 
 def events(o):
     return [t for t in o.state.trace if t[0] in ('psess', 'parse', 'resolve', 'format', 'echo', 'parsing_error', 'resolver_new')]
+
+
+def external_variant_indices(eng, fn_name):
+    """{variant name: discriminant value} for enums of other crates, read off a function that matches on them: a switchInt target block that
+    is reached for exactly one value and downcasts the scrutinee `(_x as Variant)` names that value."""
+    mir = eng.mirs[eng.by_name[fn_name]['mir']]
+    s0, e0 = mir.index[fn_name]
+    blocks, cur = {}, None
+    for ln in mir.lines[s0:e0]:
+        m = re.match(r'^\s*bb(\d+)(?: \(cleanup\))?: \{', ln)
+        if m:
+            cur = int(m.group(1))
+            blocks[cur] = []
+        elif cur is not None:
+            blocks[cur].append(ln)
+    out = {}
+    for bb, lines in blocks.items():
+        for ln in lines:
+            m = re.search(r'switchInt\((?:move|copy) _\d+\) -> \[(.*?)\]', ln)
+            if not m:
+                continue
+            tg = re.findall(r'(\d+): bb(\d+)', m.group(1))
+            count = {}
+            for v, b in tg:
+                count[b] = count.get(b, 0) + 1
+            for v, b in tg:
+                if count[b] != 1:
+                    continue
+                for l2 in blocks.get(int(b), [])[:6]:
+                    m2 = re.search(r'\(_\d+ as ([A-Z]\w+)\)', l2)
+                    if m2 and m2.group(1) not in ('Some', 'Ok', 'Err', 'None'):
+                        out.setdefault(m2.group(1), int(v))
+                        break
+    return out
